@@ -168,8 +168,10 @@ pub fn c02_space(tier: Tier) -> DocSpace {
     s.add_all("arguments", gen::docs_for_argument_lists(), if q { Lay::DefMin } else { Lay::Base });
     s.add_all("values", gen::docs_for_values(), Lay::Base);
     s.add_all("annotations", gen::docs_for_annotations(), Lay::Base);
+    s.add_all("known-annotations", gen::docs_for_known_annotations(), Lay::DefMin);
     s.add_all("headers", gen::docs_for_headers(), if q { Lay::DefMin } else { Lay::Base });
     s.add_all("names", gen::docs_for_names(), Lay::Base);
+    s.add_all("foreign-words", gen::docs_for_foreign_words(), Lay::DefMin);
     s.add_all("sizes", gen::docs_for_sizes(), Lay::Base);
     s
 }
